@@ -11,7 +11,12 @@ The hypothesis of C18_de_ser (starknet_keccak injective on SERDE_SUPPORTED_LONG_
 the list observed from the code (hyp_000.v).
 Impl-level oracle (always on): felt round trip, class extract, byte-identical re-serialization of
 the repo's contract classes, compress round trip, and - explored, not proved - text round trip /
-display fix-point, serde_json round trip, CASM equality across id spellings and round trips."""
+display fix-point, serde_json round trip, CASM equality across id spellings and round trips, and
+the debug-info paths (DebugInfo::extract/populate - modelled in C18/DebugInfo.v, theorem
+C18_debug_info_roundtrip, populate correspondence leg - ContractClass::new with debug info -> JSON ->
+extract_sierra_program(true) -> print -> parse -> CASM) on the e2e test data's Sierra sections and on
+generated closed programs with consistent names and every GenericArg kind in type and libfunc
+declarations."""
 import json
 import os
 import re
@@ -23,6 +28,8 @@ TRUSTED = [
     "axioms: none (Print Assumptions: Closed under the global context for every C18/C14 theorem); "
     "C18_de_ser/C18_sierra_from_to carry one explicit hypothesis, NoDup (map keccak long_ids), "
     "evaluated on the current SERDE_SUPPORTED_LONG_IDS by check_hyp on every run",
+    "hand model C18/DebugInfo.v of cairo-lang-sierra debug_info.rs (DebugInfo::extract / populate; "
+    "annotations and executables take no part), tied by the populate correspondence leg",
     "hand models C18/Compress.v (compress, decompress, pop_usize, words_per_felt) and C18/Serde.v "
     "(every Felt252Serde impl, vec_with_bounded_capacity, sierra_to/from_felt252s, Rust's "
     "BigUint::to_bytes_be/from_bytes_be and str::from_utf8 validity), tied to the code by the "
@@ -34,11 +41,11 @@ TRUSTED = [
 ]
 
 THEOREMS = ["C18_decompress_compress", "C18_compress_felts", "C18_de_ser", "C18_sierra_from_to",
-            "C18_sierra_to_felts", "C14_de_total_bounded", "C14_decompress_alloc_bounded",
+            "C18_sierra_to_felts", "C18_debug_info_roundtrip", "C18_example_debug_info", "C14_de_total_bounded", "C14_decompress_alloc_bounded",
             "C18_example", "C18_example_compress"]
 
 # oracle legs that have a Coq model behind them vs. legs that are exploration only
-PROVED_LEGS = {"felt-roundtrip", "class-extract", "class-reserialize", "compress-roundtrip",
+PROVED_LEGS = {"felt-roundtrip", "class-extract", "class-reserialize", "compress-roundtrip", "debug-info-populate",
                "decompress-panic", "de-panic", "ser-panic", "compress-panic"}
 
 
@@ -176,7 +183,8 @@ def run(ctx):
                        "unknown_axioms": (pr or {}).get("unknown_axioms")},
                       found_input=False)
 
-    n_cases = sum(summary.get(k, 0) for k in ("compress_cases", "decompress_cases", "ser_cases", "de_cases"))
+    n_cases = sum(summary.get(k, 0) for k in ("compress_cases", "decompress_cases", "ser_cases", "de_cases",
+                                              "populate_cases"))
     samples = []
     sp = os.path.join(cases, "samples.txt")
     if os.path.exists(sp):
@@ -195,7 +203,8 @@ def run(ctx):
     distinct_nontrivial = (summary.get("distinct_compress_inputs", 0)
                            + acc_distinct("decompress_accepted", "decompress_cases", "distinct_decompress_inputs")
                            + acc_distinct("ser_accepted", "ser_cases", "distinct_ser_programs")
-                           + acc_distinct("de_accepted", "de_cases", "distinct_de_inputs"))
+                           + acc_distinct("de_accepted", "de_cases", "distinct_de_inputs")
+                           + summary.get("named_programs", 0))
     ctx.cov.update({
         "obligations": pr["obligations"] if pr else 0,
         "discharged": pr["discharged"] if pr else 0,
@@ -210,7 +219,8 @@ def run(ctx):
                 "when the implementation accepted it (produced a serialization / a vector / a program): "
                 "distinct_nontrivial = distinct compress inputs + for each of decompress/ser/de: accepted "
                 "cases minus repeated inputs (cases - distinct inputs, every repeat counted against the "
-                "accepted ones), all counted by the harness (distinctness by printed input). ser_cases_in_theorem_domain = cases with ser_ok = true, "
+                "accepted ones), plus the generated named programs of the populate leg (distinct by "
+                "construction: unique names), all counted by the harness (distinctness by printed input). ser_cases_in_theorem_domain = cases with ser_ok = true, "
                 "counted inside Coq.",
         "ser_cases_in_theorem_domain": n_ser_ok,
         "input_distribution": {k: v for k, v in summary.items() if k != "boundary_lossy"},
